@@ -50,10 +50,59 @@ def mesh_xml(rng, nmesh, ntex, usethread=None):
     return "".join(out)
 
 
+def lengthrange_xml(rng, usethread=None):
+    """actuators whose length range the compiler has to compute by simulation (muscles, and everything with lengthrange mode 'all'),
+    mixed in random order with actuators that need none: with usethread the per-actuator jobs are spread over the compiler's thread
+    pool (mjCModel::LengthRange), so the result must not depend on the pool, on the job partition or on the actuator order"""
+    nj = int(rng.integers(3, 9))
+    kinds = [str(rng.choice(["muscle", "motor", "position", "muscle", "velocity", "tendon-muscle"])) for _ in range(int(rng.integers(3, 14)))]
+    if sum(k.endswith("muscle") for k in kinds) < 2:
+        kinds += ["muscle", "muscle"]
+    rng.shuffle(kinds)
+    mode = str(rng.choice(["muscle", "muscle", "muscleuser", "all"]))
+    out = ['<mujoco><compiler %s><lengthrange mode="%s" useexisting="false" %s/></compiler><worldbody>' % (
+        '' if usethread is None else 'usethread="%s"' % ("true" if usethread else "false"), mode,
+        'inttotal="%s" tolrange="%s"' % (repr(float(rng.choice([5.0, 10.0, 20.0]))), repr(float(rng.choice([0.2, 0.5])))))]
+    depth = 0
+    for j in range(nj):
+        new_chain = j == 0 or rng.random() < 0.35
+        if new_chain:
+            out.append('</body>' * depth)
+            depth = 0
+        out.append('<body pos="%s"><joint name="j%d" type="%s" axis="%s" range="%s" limited="true" damping="%s"/><geom type="capsule" size="0.03" fromto="0 0 0 0.2 0 0" mass="%s"/><site name="s%d" pos="0.1 0 0.04"/>' % (
+            "0.2 0 0" if depth else "%s 0 1" % repr(0.5 * j), j, str(rng.choice(["hinge", "hinge", "slide"])), " ".join(repr(float(x)) for x in rng.normal(size=3)),
+            "%s %s" % (repr(float(-rng.uniform(0.2, 1.2))), repr(float(rng.uniform(0.2, 1.2)))), repr(float(rng.uniform(0.1, 2))), repr(float(rng.uniform(0.2, 2))), j))
+        depth += 1
+    out.append('</body>' * depth)
+    out.append('</worldbody><tendon>')
+    nt = int(rng.integers(1, 4))
+    for t in range(nt):
+        a, b = int(rng.integers(0, nj)), int(rng.integers(0, nj))
+        out.append('<fixed name="t%d"><joint joint="j%d" coef="%s"/>%s</fixed>' % (t, a, repr(float(rng.choice([-1, 1]) * rng.uniform(0.3, 2))),
+                                                                                   '' if a == b else '<joint joint="j%d" coef="%s"/>' % (b, repr(float(rng.uniform(0.3, 2))))))
+    out.append('</tendon><actuator>')
+    for i, k in enumerate(kinds):
+        j = int(rng.integers(0, nj))
+        if k == "muscle":
+            out.append('<muscle name="a%d" joint="j%d" range="%s" force="%s"/>' % (i, j, "0.75 1.05" if rng.random() < 0.5 else "0.6 1.2", repr(float(rng.uniform(5, 50)))))
+        elif k == "tendon-muscle":
+            out.append('<muscle name="a%d" tendon="t%d" scale="%s"/>' % (i, int(rng.integers(0, nt)), repr(float(rng.uniform(100, 400)))))
+        elif k == "motor":
+            out.append('<motor name="a%d" joint="j%d" gear="%s"/>' % (i, j, repr(float(rng.uniform(0.5, 3)))))
+        elif k == "position":
+            out.append('<position name="a%d" joint="j%d" kp="%s"/>' % (i, j, repr(float(rng.uniform(1, 20)))))
+        else:
+            out.append('<velocity name="a%d" joint="j%d" kv="%s"/>' % (i, j, repr(float(rng.uniform(0.1, 3)))))
+    out.append('</actuator></mujoco>')
+    return "".join(out)
+
+
 def _xml(c, usethread=None):
     rng = np.random.default_rng(c["mseed"])
     if c["kind"] == "mesh":
         return mesh_xml(rng, c["nmesh"], c["ntex"], usethread)
+    if c["kind"] == "lengthrange":
+        return lengthrange_xml(rng, usethread)
     if c["kind"] == "corpus":
         return None
     xml, _ = model.gen_profile(rng, c["profile"])
@@ -167,6 +216,8 @@ def run(ctx):
     for i in range(ctx.pick(16, 200)):
         cs.append({"kind": "mesh", "mseed": int(rng.integers(0, 2 ** 31)), "seed": int(rng.integers(0, 2 ** 31)), "nmesh": int(rng.integers(8, 41)),
                    "ntex": int(rng.integers(0, 6)), "repeats": ctx.pick(3, 10)})
+    for i in range(ctx.pick(24, 300)):
+        cs.append({"kind": "lengthrange", "mseed": int(rng.integers(0, 2 ** 31)), "seed": int(rng.integers(0, 2 ** 31)), "repeats": ctx.pick(2, 5)})
     for i in range(ctx.pick(40, 600)):
         cs.append({"kind": "gen", "profile": ["rich", "contact", "smooth"][i % 3], "mseed": int(rng.integers(0, 2 ** 31)), "seed": int(rng.integers(0, 2 ** 31)),
                    "repeats": ctx.pick(2, 5)})
